@@ -157,6 +157,8 @@ func (e *env) e2e(c e2eCase) {
 		seq = 4294966272 - uint32(e.rnd.Intn(3)) // the counter wraps inside this message
 	case 1:
 		seq = 0
+	case 2:
+		seq = 4294967295 // the first chunk gets sequence number 0
 	}
 	if c.seq >= 0 {
 		seq = uint32(c.seq)
@@ -181,9 +183,13 @@ func (e *env) e2e(c e2eCase) {
 	defer wireIn.Close()
 	defer wireOut.Close()
 	defer rTCP.Close()
-	const maxChunks, maxMsg = 4096, 1 << 26
-	sConn, _ := uacp.NewConn(sTCP, &uacp.Acknowledge{ReceiveBufSize: uint32(c.cs), SendBufSize: uint32(c.cs), MaxChunkCount: maxChunks, MaxMessageSize: maxMsg})
-	rConn, _ := uacp.NewConn(rTCP, &uacp.Acknowledge{ReceiveBufSize: uint32(c.cs), SendBufSize: uint32(c.cs), MaxChunkCount: maxChunks, MaxMessageSize: maxMsg})
+	maxChunks, maxMsg := 4096, 1<<26
+	if e.rnd.Intn(4) == 0 {
+		maxChunks, maxMsg = 0, 0 // 0 = no limit
+		e.r.Hit("limits:none")
+	}
+	sConn, _ := uacp.NewConn(sTCP, &uacp.Acknowledge{ReceiveBufSize: uint32(c.cs), SendBufSize: uint32(c.cs), MaxChunkCount: uint32(maxChunks), MaxMessageSize: uint32(maxMsg)})
+	rConn, _ := uacp.NewConn(rTCP, &uacp.Acknowledge{ReceiveBufSize: uint32(c.cs), SendBufSize: uint32(c.cs), MaxChunkCount: uint32(maxChunks), MaxMessageSize: uint32(maxMsg)})
 	errS, errR := make(chan error, 4), make(chan error, 4)
 	snd, err := uasc.VerifOpenChannel(sConn, e.cfg(c, reqSeed), c.fromSrv, chanID, tokID, seq, nS, nR, errS)
 	if err != nil {
@@ -255,7 +261,7 @@ func (e *env) e2e(c e2eCase) {
 			return
 		}
 		wire = append(wire, w)
-		if len(w) < 4 || w[3] != 'C' || len(wire) > maxChunks {
+		if len(w) < 4 || w[3] != 'C' || len(wire) > 4096 {
 			break
 		}
 	}
@@ -293,6 +299,9 @@ func (e *env) e2e(c e2eCase) {
 	}
 	if uint64(seq)+uint64(len(wire)) > 4294966272 {
 		e.r.Hit("seq:wraps")
+	}
+	if seq == 4294967295 {
+		e.r.Hit("seq:first-chunk-0")
 	}
 	e.r.Sample(fmt.Sprintf("%s maxBody=%d chunks=%d lens=%v", canon, mb, len(wire), lens(wire)))
 
@@ -821,7 +830,7 @@ func main() {
 			}
 		}
 	}
-	for _, b := range []string{"vad:intact:ok", "vad:bitflip:err", "vad:truncated:err", "seq:wraps", "body:exact-multiple", "enc:maxBody=0", "opn:extra-padding sender=true receiver=false", "opn:extra-padding sender=false receiver=true", "opn:extra-padding sender=true receiver=true", "opn:extra-padding sender=false receiver=false"} {
+	for _, b := range []string{"vad:intact:ok", "vad:bitflip:err", "vad:truncated:err", "seq:wraps", "seq:first-chunk-0", "limits:none", "body:exact-multiple", "enc:maxBody=0", "opn:extra-padding sender=true receiver=false", "opn:extra-padding sender=false receiver=true", "opn:extra-padding sender=true receiver=true", "opn:extra-padding sender=false receiver=false"} {
 		if r.Distribution[b] == 0 {
 			r.Unreached = append(r.Unreached, b)
 		}
